@@ -38,8 +38,8 @@ func Make(r *Rand, family string, n int) Data {
 	switch family {
 	case "uniform":
 		r.Fill(b)
-	case "alpha2", "alpha4", "alpha16":
-		k := map[string]int{"alpha2": 2, "alpha4": 4, "alpha16": 16}[family]
+	case "alpha2", "alpha4", "alpha8", "alpha16":
+		k := map[string]int{"alpha2": 2, "alpha4": 4, "alpha8": 8, "alpha16": 16}[family]
 		syms := r.Bytes(k)
 		for i := range b {
 			b[i] = syms[r.Intn(k)]
